@@ -266,6 +266,29 @@ def specials():
     e["suit-integrated-dependencies"] = {"#mid": {"SUIT_Envelope_Tagged": {**minimal()["SUIT_Envelope_Tagged"], "suit-integrated-dependencies": {"#leaf": leaf},
                                                                          "suit-integrated-payloads": {"#z": "03"}}}}
     yield {"SUIT_Envelope_Tagged": e}
+    # encryption info that enters the description as ready-made bytes ({raw: ...}): what the encrypt tooling emits (direct key: recipient
+    # with nil ciphertext; key wrap: recipient carrying the wrapped key) and hand-made variants of the same structure
+    def cose_encrypt(outer_ct, rec_alg, rec_ct, kid=b"\x07"):  # (key ids as the tooling writes them: the CBOR encoding of an integer - other byte strings are F4b)
+        rec = [b"", cb.Pairs([(1, rec_alg), (4, kid)]), rec_ct]
+        # (the ready-made form is the byte-string-wrapped COSE_Encrypt_Tagged, as suit_encryption_info.bin holds it)
+        return cb.enc(cb.enc(cb.Tag(96, [cb.enc(cb.Pairs([(1, 3)])), cb.Pairs([(5, bytes(range(12)))]), outer_ct, [rec]])))
+
+    blobs = [cose_encrypt(None, -6, None), cose_encrypt(None, -6, b""), cose_encrypt(None, -5, bytes(range(40, 80))), cose_encrypt(b"\x01\x02", -6, None),
+             cose_encrypt(None, -6, None, kid=b"\x1a\x40\x00\xaa\x00")]
+    try:
+        from suit_generator.suit_encrypt_script_base import SuitKWAlgorithms
+
+        from .c06 import _encryptor
+
+        for kw, ek in (("direct", b""), ("aes-kw-256", bytes(range(100, 140)))):
+            blobs.append(_encryptor({}).generate(bytes(range(28)) + b"ciphertext", ek, 0x40022000, SuitKWAlgorithms(kw))[2])
+    except boot.HarnessError:
+        raise
+    except Exception:
+        pass  # the encrypt tooling is C06's business; the hand-made blobs remain
+    for blob in blobs:
+        yield minimal(man={"suit-install": [{"suit-directive-set-component-index": 0}, {"suit-directive-override-parameters": {
+            "suit-parameter-encryption-info": {"raw": blob.hex()}, "suit-parameter-image-size": {"raw": 7}}}]})
 
 
 def plan(ctx):
